@@ -93,3 +93,44 @@ func unionScenarioDepth(prop, name, tier string, step func(x *engine.Exec) []eng
 		Note:   "union world: take rate + decaying weight, pinned weight schedule, warm-up asset, asset deletion/creation, params change, reward inflow in two denoms, slashes incl. 100%, genesis reimport",
 	}
 }
+
+// The full-pipeline union world: the union assets in a world that runs the whole ModuleManager.BeginBlock/EndBlock,
+// where slashes arrive through x/staking, reward inflow is allocated by x/distribution at the next block start and
+// validators can leave, re-enter and drop out of the active set. Several independently written breaking changes needed
+// exactly that (a validator jailed without a slash, unbonding, removed by x/staking) under an oracle whose own world
+// was module-only.
+func unionFullConfig() world.Config {
+	cfg := unionConfig()
+	cfg.FullPipeline = true
+	return cfg
+}
+
+func unionFullOps(n *engine.Node) []world.Op {
+	ops := unionOps(n)
+	var out []world.Op
+	for _, o := range ops {
+		if o.K == world.KReimport || (o.K == world.KReward && o.Denom != "stake") {
+			continue
+		}
+		out = append(out, o)
+	}
+	out = append(out,
+		world.Op{K: world.KJail, V: 0, Class: ClsEnv}, world.Op{K: world.KUnjail, V: 0, Class: ClsEnv},
+		world.Op{K: world.KJail, V: 2, Class: ClsEnv}, world.Op{K: world.KUnjail, V: 2, Class: ClsEnv},
+		world.Op{K: world.KNUndelegateAll, D: 99, V: 2, Class: ClsEnv},
+		world.Op{K: world.KDelegate, D: 1, V: 2, Denom: "ccc", Amt: "4", Class: ClsUser},
+	)
+	return out
+}
+
+// unionFullScenario builds the full-pipeline union scenario for one property with that property's own oracle.
+func unionFullScenario(prop, name, tier string, step func(x *engine.Exec) []engine.Failure, newRef func(w *world.World, root *engine.Node) engine.Ref, depth int) *engine.Scenario {
+	return &engine.Scenario{
+		Property: prop, Name: name, Cfg: unionFullConfig(), Stores: world.AllStores,
+		Seeds: [][]world.Op{unionSeed}, ClassNames: classNames,
+		Budgets: tierPick(tier, []int{2, 1, 2, 3, 1}, []int{3, 1, 3, 4, 1}), MaxDepth: depth,
+		NewRef: newRef, Ops: unionFullOps, Step: step, SeedStep: true,
+		Expand: func(x *engine.Exec) bool { return !x.Res.Rejected && !(x.Op.K == world.KBlock && x.Res.Err != nil) },
+		Note:   "full-pipeline union world: the union assets under the whole BeginBlock/EndBlock, slashes through x/staking, validators jailed/unjailed/leaving the set, a validator that x/staking can remove",
+	}
+}
